@@ -19,3 +19,4 @@ CFG = dict(
                 "operation) and rapid. API calls are issued from one goroutine (happens-before ordered, as doc.go requires).",
      assumptions=["testing/synctest virtual time is correct", "k8s.io/utils/clock/testing FakeClock fires timers on Step"],
      timeout_quick=300, timeout_thorough=2400)
+CFG["rule"] += ' Added after independently written breaking changes: The scheduler is started through Start() or the blocking Run(); entries are added through Schedule or, as spec text, through AddFunc/AddJob (seconds-enabled parser, Cron location).'
